@@ -403,7 +403,14 @@ func body(c *kernel.Ctx) {
 			for _, k := range keys {
 				d := h.newDatum(k, s, rootOf[k][s])
 				base[k] = d
-				if hasPk(b1.entries, k.pk) || verifrt.Intn("w", 4) == 3 {
+				// a set holds one entry per pubkey: the second subcommittee of a validator goes to the other batch
+				toB2 := verifrt.Intn("w", 4) == 3
+				if hasPk(b1.entries, k.pk) {
+					toB2 = true
+				} else if hasPk(b2.entries, k.pk) {
+					toB2 = false
+				}
+				if toB2 {
 					b2.entries = append(b2.entries, d)
 				} else {
 					b1.entries = append(b1.entries, d)
@@ -637,6 +644,16 @@ func (h *harn) check() {
 				d := h.datums[id-1]
 				inv, offered := firstInv[id]
 				ok = d.key == ent.key && d.share == p.ShareIdx && sameBytes(p, mkData(d)) && offered && inv < tr.stamp
+			}
+			if ok {
+				// E1: a datum offered only after another datum of the same share had been stored by a call that
+				// returned nil was an equivocation and must have been rejected: it can never be handed over.
+				for _, o := range byKey[ent.key] {
+					if o.d.share == p.ShareIdx && o.d.id != id && o.call.returned && o.call.err == "" && !o.call.dropped && o.call.ret < firstInv[id] {
+						h.violate("rejection", "rejected-datum-in-trigger", "key %v call#%d: the trigger hands over d%d of share %d although call#%d had stored d%d for that share (and returned nil) before d%d was first offered", ent.key, tr.call.id, id, p.ShareIdx, o.call.id, o.d.id, id)
+						break
+					}
+				}
 			}
 			if !ok {
 				h.violate("trigger-content", "unattributed-partial", "key %v call#%d: partial sh%d/d%d was not offered by that share for this key before the trigger (or differs from it)", ent.key, tr.call.id, p.ShareIdx, id)
